@@ -503,6 +503,13 @@ def fixed_templates():
         "body": [("draw", "x", ("duniform", 0, 3), ("true",), "x"),
                  ("if", [("or", atom("x", "<=", 1), ("and", atom("x", ">=", 1), atom("x", "<=", 2)))], [[inc("hits")]], [])]},
               ["hits", "hits**2", "hits*x"]))
+    # constants defined from other constants that the initial block reassigns afterwards
+    T.append(("init_constant_chain", {
+        "vars": ["a", "b", "c", "x", "y"], "s0": {}, "guard": ("true",),
+        "init": [asg("a", [(F(1), ONE)]), asg("b", [(F(1), V("a")), (F(1), ONE)]), asg("c", [(F(2), V("b"))]),
+                 asg("a", [(F(5), ONE)]), asg("x", []), asg("y", [(F(1), ONE)])],
+        "body": [("assign", "x", [(F(1, 2), [(F(1), V("x")), (F(1), V("c"))]), (F(1, 2), [(F(1), V("x")), (F(1), V("a"))])], ("true",), "x"),
+                 asg("y", [(F(1), V("y")), (F(1), V("b"))])]}, ["x", "y", "x*y", "x**2"]))
     items = []
     for name, P, goals in T:
         items.append({"id": "tmpl-" + name, "text": gen.render(P), "T": P, "params": [], "types": None, "points": [{}],
